@@ -98,8 +98,23 @@ Definition t3_read_with (idm : list Z) (s : air) : res fresh * air :=
     end
   | (Err e, s1) => (Err e, s1) | (Crash c, s1) => (Crash c, s1) | (Hang, s1) => (Hang, s1)
   end.
-(* the same for the code before the Type 3 repairs 08-10 (kept for the refutation witnesses) *)
-Definition t3_read_with_legacy (idm : list Z) (s : air) : res fresh * air := read_ndef air (t3_dev_read idm) s.
+(* the same for the code before the Type 3 repairs 08-10 (kept for the refutation witnesses): range(1, last, 0)
+   raises ValueError, Ln is not compared with Nmaxb, Nbr blocks per command whatever Nbr is *)
+Definition t3_read_with_legacy (idm : list Z) (s : air) : res fresh * air :=
+  match read_attr air (t3_dev_read idm) s with
+  | (Ok None, s1) => (Ok NoNdef, s1)
+  | (Ok (Some a), s1) =>
+    if negb (a_ver a / 16 =? 1) then (Ok NoNdef, s1) else
+    if a_nbr a =? 0 then (Crash RangeStep0, s1) else
+    let last := 1 + (a_ln a + 15) / 16 in
+    match rd_loop air (t3_dev_read idm) (Z.to_nat last) s1 1 last (a_nbr a) [] with
+    | (Ok None, s2) => (Ok NoNdef, s2)
+    | (Ok (Some d), s2) =>
+      (Ok (Ndef (attr_readable a) (attr_writeable a) (a_nmaxb a * 16) (take (a_ln a) d)), s2)
+    | (Err e, s2) => (Err e, s2) | (Crash c, s2) => (Crash c, s2) | (Hang, s2) => (Hang, s2)
+    end
+  | (Err e, s1) => (Err e, s1) | (Crash c, s1) => (Crash c, s1) | (Hang, s1) => (Hang, s1)
+  end.
 
 (* _read_ndef_data of a tag object with IDm [idm] and system code [sys]; also returns IDm / system code afterwards *)
 Definition t3_read_ndef (idm : list Z) (sys : Z) (s : air) : res fresh * air * (list Z * Z) :=
@@ -202,6 +217,35 @@ Definition read_with_any (c : chan) (i : ccinfo) : res fresh * chan :=
     | (Err _, c4) => (Ok NoNdef, c4)
     | (Crash x, c4) => (Crash x, c4) | (Hang, c4) => (Hang, c4)
     end
+  | (Err _, c1) => (Ok NoNdef, c1) | (Crash x, c1) => (Crash x, c1) | (Hang, c1) => (Hang, c1)
+  end.
+
+(* the file read before the repairs 04-06 (kept for the refutation witnesses): a READ BINARY that yields nothing is
+   repeated (the loop only ends when the fuel - more reads than the message has bytes - is used up: Hang), NLEN is
+   not compared with the capacity, answers longer than Le are taken as they are *)
+Fixpoint rd_file_legacy (fuel : nat) (c : chan) (i : ccinfo) (nlen : Z) (acc : list Z) : res (list Z) * chan :=
+  if len acc <? nlen then
+    match fuel with
+    | O => (Hang, c)
+    | S f => lift_c (t4_send_any c (RdBin (i_nlen i + len acc) (Z.min (i_mle i) (nlen - len acc)))) (fun d c1 =>
+               rd_file_legacy f c1 i nlen (acc ++ d))
+    end
+  else (Ok acc, c).
+Definition read_with_legacy (c : chan) (i : ccinfo) : res fresh * chan :=
+  match select_fid_any c (i_p2 i) (i_fid i) with
+  | (Ok true, c1) =>
+    match lift_c (t4_send_any c1 (RdBin 0 (Z.min (i_mle i) (i_nlen i)))) (fun nl c2 =>
+            if negb (len nl =? i_nlen i) then (Ok None, c2) else
+            match rd_file_legacy (Z.to_nat (Z.min (be nl) 65536 + 1)) c2 i (be nl) [] with
+            | (Ok d, c3) => (Ok (Some d), c3)
+            | (Err e, c3) => (Err e, c3) | (Crash x, c3) => (Crash x, c3) | (Hang, c3) => (Hang, c3)
+            end) with
+    | (Ok (Some d), c4) => (Ok (Ndef (i_rd i) (i_wr i) (i_cap i) d), c4)
+    | (Ok None, c4) => (Ok NoNdef, c4)
+    | (Err _, c4) => (Ok NoNdef, c4)
+    | (Crash x, c4) => (Crash x, c4) | (Hang, c4) => (Hang, c4)
+    end
+  | (Ok false, c1) => (Ok NoNdef, c1)
   | (Err _, c1) => (Ok NoNdef, c1) | (Crash x, c1) => (Crash x, c1) | (Hang, c1) => (Hang, c1)
   end.
 
